@@ -291,8 +291,8 @@ FLOW_TB = ["Float execution of the model (Lean runtime + libm) assumed IEEE bina
            "order laws of finite binary64 (strict weak order, x < nextUp x) assumed; proved for no concrete float type",
            "topology handed to the flow model is the real grid's neighbour lists (tied to the grid model in C07/C18)"]
 
-register("C01", lean_modules=["FsProofs.Properties.ShapesC01", 'FsModel.PFlood', 'FsModel.Descent', 'FsModel.Tilt', 'FsProofs.Properties.C01', 'FsProofs.Properties.C01Multi', 'FsProofs.Properties.C01MstRouter', 'FsProofs.Properties.C01MstConnected', 'FsProofs.Properties.C01MstExample', 'FsProofs.Properties.ImplCheck', 'FsProofs.Properties.Closed'],
-         theorems=["Fs.Shapes.source_shape_C01", 'Fs.C01.C01_pflood_singleRouter', 'Fs.C01.C01_pflood_multiRouter', 'Fs.ImplCheck.checkFlow_sound', 'Fs.ImplCheck.checkFlow_paths', 'Fs.Closed.raster_C01_pflood_single', 'Fs.Closed.raster_C01_pflood_multi', 'Fs.Closed.raster_C01_mst', 'Fs.C01Mst.resolve_c01_singleRouter', 'Fs.C01Mst.resolve_c01_kruskal_sorted', 'Fs.C01Mst.resolve_c01_tree', 'Fs.C01Mst.resolve_c01_connected',
+register("C01", lean_modules=["FsProofs.Properties.ClosedC01Pipeline", "FsProofs.Properties.ShapesC01", 'FsModel.PFlood', 'FsModel.Descent', 'FsModel.Tilt', 'FsProofs.Properties.C01', 'FsProofs.Properties.C01Multi', 'FsProofs.Properties.C01MstRouter', 'FsProofs.Properties.C01MstConnected', 'FsProofs.Properties.C01MstExample', 'FsProofs.Properties.ImplCheck', 'FsProofs.Properties.Closed'],
+         theorems=["Fs.Closed.grid_C01_mst_multi", "Fs.Closed.C01_mst_multiRouter", "Fs.Closed.raster_C01_mst_multi", "Fs.Closed.mesh_C01_mst_multi", "Fs.Closed.profile_C01_mst_multi", "Fs.Closed.basic_multi_pit", "Fs.Closed.basic_multi_rows", "Fs.Shapes.source_shape_C01", 'Fs.C01.C01_pflood_singleRouter', 'Fs.C01.C01_pflood_multiRouter', 'Fs.ImplCheck.checkFlow_sound', 'Fs.ImplCheck.checkFlow_paths', 'Fs.Closed.raster_C01_pflood_single', 'Fs.Closed.raster_C01_pflood_multi', 'Fs.Closed.raster_C01_mst', 'Fs.C01Mst.resolve_c01_singleRouter', 'Fs.C01Mst.resolve_c01_kruskal_sorted', 'Fs.C01Mst.resolve_c01_tree', 'Fs.C01Mst.resolve_c01_connected',
                    'Fs.C01Mst.routeCarve_spec', 'Fs.C01Mst.routeBasic_spec', 'Fs.C01Mst.rerouted_forest', 'Fs.C01Mst.rerouted_base', 'Fs.C01Mst.orient_spec', 'Fs.C01Mst.orient_reached_iff', 'Fs.C01Mst.kruskal_keeps_virtual', 'Fs.C01.pflood_terminates', 'Fs.pflood_parent', 'Fs.pflood_complete', 'Fs.step_wf', 'Fs.Tilt.tilt_descends'], gen=gen_resolved, oracles=[oracle.c01], cause=oracle.c01_cause,
          model_certs={"cert_mst": ("1", "spanning_tree_certificate", "the Lean checker certOk (Fs.C15.certOk_sound) rejects the raw spanning tree used by this resolver run as a minimum-weight spanning forest that keeps the virtual root edges (the tree facts assumed by Fs.C01Mst.resolve_c01_tree)"),
                       "cert_c01": ("1", "reaches_base", "the Lean checker checkFlow (soundness: Fs.ImplCheck.checkFlow_sound / checkFlow_paths) rejects the receivers and elevation REPORTED BY THE IMPLEMENTATION: a terminal node drains, a step is not strictly descending to an unmasked (neighbour) node, or a node connected to a base level is a pit")},
@@ -621,7 +621,7 @@ def _lvl(pid, level, text, technique=None, note=None):
         P["level_note"] = note
 
 
-_lvl("C01", "proof",
+_lvl("C01", "proof THREE-OPERATOR PIPELINE single router -> spanning-tree resolver -> MULTIPLE-direction router (ClosedC01Pipeline.lean): grid_C01_mst_multi (carve, Kruskal, any grid with EnvOk; raster_/mesh_/profile_ instances, non-vacuity examples): the multi router run on the returned elevations leaves no unmasked node connected to a base level as a pit, all its receivers are strictly lower unmasked neighbours, the resolver's own receiver is among them, no flow path has a cycle, and EVERY maximal flow path from such a node ends at an unmasked base level. For basic the statement is FALSE and the negation is proved on a concrete instance (basic_multi_pit, decide +kernel on the executed model: the pit is drained to a non-neighbour pass node, so the neighbour-based router that runs next leaves it its own receiver) - this is the formal counterpart of the known finding D11 (basic_then_multi), which the check replays on the implementation.",
      "END-TO-END theorem on the executed composition priority flood + single-direction router (Fs.C01.C01_pflood_singleRouter, any grid size / topology handed over by the grid, any elevations, masks and base-level sets, sequential or multi-threaded router variant; assumptions: strict-weak-order laws of the comparison, x < nextUp x, slope towards a lower neighbour above -DBL_MAX, neighbour lists in range and symmetric, base-level list duplicate-free): (1) base-level and masked nodes are their own receiver, (2) every proper step goes to an unmasked neighbour with strictly lower RETURNED elevation, (3) every node connected through unmasked neighbours to an unmasked base level reaches a base-level node after finitely many receiver steps and stops there, (4) no cycle. It rests on pflood_terminates (potential-function proof that the flood empties both queues within its fuel n+1), pflood_parent / pflood_complete (flood invariants), C04.routed_row (router scan) and C06.singleRouter_graph. Also step_wf (descent => well-founded) and tilt_descends (strict descent after the spanning-tree tilt pass). C01_pflood_multiRouter: the same for flood + multiple-direction router (every proper receiver is an unmasked neighbour with strictly lower returned elevation; a node connected to a base level is never a pit and all its receivers stay connected; 'flows to' is well-founded, no cycle, every path has fewer than n steps; every maximal path from a connected node ends at a base level, and one exists). resolve_c01_singleRouter: the same for the executed SPANNING-TREE resolver (Fs.Mst.resolve with Kruskal, carve or basic) after the single router: base-level and masked nodes stay their own receiver; the re-routed receiver table is again a forest (so the rebuilt donors/orders are valid by C06); every proper step strictly decreases the RETURNED (tilted) elevation; carve never hangs; every unmasked node whose basin is reached from the root - in particular every node connected through unmasked neighbours to an unmasked base level (resolve_c01_connected) - ends at a base-level node. Built from routeCarve_spec (path reversal), routeBasic_spec, the fold over tree edges (rerouted_forest / rerouted_base), orient_spec + orient_reached_iff (the executed orientation returns an arborescence from the root: each reached basin is the head of exactly one edge, depths increase, reached = connected to the root in the tree), kruskal_keeps_virtual, connect_basins (C15) and tilt_descends; extra assumptions: elevations above -DBL_MAX (a real pass at -DBL_MAX would tie with the virtual edges - counterexample in C01MstExample), arrays fit in memory, the weight-sorted permutation check the harness performs. For Boruvka the same conclusions hold under the two tree facts (forest, virtual edges kept) that the model driver CERTIFIES on every resolver run of either method (line cert_mst: certOk on the raw tree + all virtual edges present): resolve_c01_tree. Certificate: on every scenario the model driver runs the Lean checker checkFlow on the receivers and elevation REPORTED BY THE C++ (soundness checkFlow_sound / checkFlow_paths: accepted => terminal nodes self, strict descent to unmasked (neighbour) nodes, no pit among nodes connected to a base level, hence every maximal path ends at a base level). raster_C01_pflood_single / _multi / raster_C01_mst: Closed corollaries (Closed.lean): the topology hypotheses (neighbours in range, row width <= n_neighbors_max, symmetry with multiplicity, positive distances, slope-above-lowest on neighbour slots) are DISCHARGED for the topology `rasterTopo` the executed raster model reports, for every raster with >= 2 nodes per axis and positive spacing over any ordered field - so the statements below hold for every such raster, mask, base-level set and elevation with no hypothesis about the grid left; all their hypotheses are shown satisfiable on a concrete 3x3 instance over Q (non-vacuity).",
      "Lean 4 end-to-end theorems on the executed flood+router and spanning-tree resolver (loop invariants, potential-function termination, path-reversal / forest / arborescence proofs, composition) + bit-exact differential correspondence + reachability oracle")
 _lvl("C02", "proof",
